@@ -1157,9 +1157,46 @@ def swap_order_maps(P, R):
 
 
 # --------------------------------------------------------------- R-LEVELSET
+def levels_complete(P, R):
+    """`_levels()` is the index that swap rewrites the tables from: it
+    lists EVERY node of the table under its level.  A filter (`continue`,
+    a conditional insertion) leaves nodes out, and swap then keeps their
+    unique-table entries under the old level."""
+    f = P.func('dd.bdd.BDD._levels')
+    loops = [lp for lp in au.walk_no_defs(f.node) if isinstance(
+        lp, ast.For) and au.chain(getattr(lp.iter, 'func', lp.iter)) and (
+            au.chain(getattr(lp.iter, 'func', lp.iter))[:2] == [
+                'self', '_succ'])]
+    if not loops:
+        R.undecided('R-LEVELSET', f.qualname, 'index of all nodes',
+                    'no loop over self._succ')
+        return
+    lp = loops[0]
+    skips = [x for x in au.walk_no_defs(lp) if isinstance(
+        x, (ast.Continue, ast.Break))]
+    adds = [s for s in lp.body if isinstance(s, ast.Expr) and isinstance(
+        s.value, ast.Call) and au.call_name(s.value) == 'add']
+    if skips or not adds:
+        R.violation(
+            'R-LEVELSET', 'index-incomplete', f.qualname, '_levels',
+            f'_levels() does not enter every node of the table into the '
+            'per-level index ('
+            + ('a `continue`/`break` skips some' if skips else
+               'the insertion is conditional')
+            + '): swap pops and rewrites the unique-table entries of the '
+            'listed nodes only, so an unlisted node (an unreferenced one, '
+            'say) keeps its old (level, low, high) key and collides with '
+            'a moved node', unit=f.unit.rel,
+            line=(skips[0].lineno if skips else lp.lineno))
+    else:
+        R.holds('R-LEVELSET', f.qualname,
+                'every node of the table is entered under its level')
+
+
 def r_levelsets(P, R):
     """swap hands the per-level node index back consistently: a node found
     at level L after the swap goes into the set stored as all_levels[L]."""
+    levels_complete(P, R)
     f = P.func('dd.bdd.BDD.swap')
     fn = f.node
     assigned = dict()      # 'x' / 'y' -> set name
